@@ -275,7 +275,11 @@ func c13Exec(x *Ctx) {
 		case "flush":
 			want = &Msg{Type: Rflush}
 		case "clunkbad":
-			want = &Msg{Type: Rerror, Ename: "unknown fid", Errno: 22}
+			// refused by the framework; the error number is the library's business
+			if rep.M.Type != Rerror || !bytes.Contains([]byte(rep.M.Ename), []byte("unknown fid")) || rep.M.Tag != e.m.Tag {
+				x.Violate("s5-reply", "message %d (%s): reply %s, want Rerror 'unknown fid' with its tag", i, e.m, rep.M)
+			}
+			continue
 		default:
 			var inv *Inv
 			for _, in := range fs.Log {
